@@ -72,7 +72,9 @@ var (
 
 // ---- pre-created arguments
 var (
-	strVals   = []string{"", "v", "hello world", "with \"quote\" and \n newline", "ünïcödé €", "\xff\xfe", longEsc40, longEsc120, strings.Repeat("plain", 20)}
+	strVals   = []string{"", "v", "hello world", "with \"quote\" and \n newline", "ünïcödé €", "\xff\xfe", longEsc40, longEsc120, strings.Repeat("plain", 20),
+		// text a sanitiser may single out (all valid UTF-8): C1 controls, line/paragraph separators, bidi controls, BOM, tag characters, an ANSI sequence
+		"c1 \u0085 \u009f", "sep \u2028 and \u2029", "bidi \u202eabc\u202c \u2066x\u2069", "\ufeffbom \u200b zero width \u00ad", "flag \U0001f3f4\U000e0067\U000e0062\U000e007f \U0010ffff", "\x1b[31mred\x1b[0m"}
 	bytesVals = [][]byte{nil, {}, []byte("bytes"), {0, 1, 2, 0xff}, []byte("q\"\\"), []byte(longEsc40), []byte(longEsc120), []byte(strings.Repeat("plain", 20))}
 	intVals   = []int64{0, 1, -1, 23, 24, 255, 256, -32768, 65535, 1 << 31, -1 << 62, 9223372036854775807}
 	uintVals  = []uint64{0, 1, 255, 65536, 1 << 32, 1<<64 - 1}
